@@ -406,6 +406,9 @@ func (rw *rewriter) run() {
 		}
 		rw.changed = true
 	}
+	if !noNotes {
+		rw.noteLoops()
+	}
 	for _, d := range rw.file.Decls {
 		rw.node(reflect.ValueOf(d))
 	}
@@ -479,6 +482,171 @@ func (rw *rewriter) node(v reflect.Value) {
 		}
 	}
 }
+
+// noteLoops inserts, at the head of the body of every loop, a call
+//
+//	vrt.NoteLocals(site, parentSite, v1, v2, ...)
+//
+// with every scalar local variable (parameters, results, loop and range
+// variables included) of the innermost enclosing function that is declared
+// outside the loop body and referenced inside the loop. The values become part
+// of the thread's key: state that a loop carries in its locals from one
+// iteration to the next - invisible both to the object hash and to a digest
+// that is reset every round - can then not merge two different states.
+func (rw *rewriter) noteLoops() {
+	var stack []ast.Node
+	sites := map[ast.Node]uint64{}
+	ast.Inspect(rw.file, func(n ast.Node) bool {
+		if n == nil {
+			stack = stack[:len(stack)-1]
+			return true
+		}
+		stack = append(stack, n)
+		var body *ast.BlockStmt
+		switch x := n.(type) {
+		case *ast.ForStmt:
+			body = x.Body
+		case *ast.RangeStmt:
+			body = x.Body
+		default:
+			return true
+		}
+		// innermost enclosing function and nearest enclosing loop inside it
+		var fn ast.Node
+		parent := uint64(0)
+		overMap := false
+		for i := len(stack) - 1; i >= 0 && fn == nil; i-- {
+			switch y := stack[i].(type) {
+			case *ast.FuncDecl, *ast.FuncLit:
+				fn = y
+			case *ast.RangeStmt:
+				if tv, ok := rw.info.Types[y.X]; ok && tv.Type != nil {
+					if _, isMap := tv.Type.Underlying().(*types.Map); isMap {
+						overMap = true
+					}
+				}
+				if parent == 0 && i < len(stack)-1 {
+					parent = sites[y]
+				}
+			case *ast.ForStmt:
+				if parent == 0 && i < len(stack)-1 {
+					parent = sites[y]
+				}
+			}
+		}
+		if overMap {
+			// the iteration order of a map is not determined: values computed along it
+			// are not a function of the state (the code must not depend on them either:
+			// replays compare keys and would report any such dependence)
+			return true
+		}
+		if fn == nil || body == nil || !rw.hasSchedulingPoint(body) {
+			return true // no call and no channel operation inside: nothing is live across a scheduling point within the loop
+		}
+		pos := fset.Position(n.Pos())
+		site := fnv64(fmt.Sprintf("%s:%d:%d", filepath.Base(pos.Filename), pos.Line, pos.Column))&0xffffffff | 1
+		sites[n] = site
+		seen := map[*types.Var]bool{}
+		var vars []*types.Var
+		ast.Inspect(n, func(m ast.Node) bool {
+			id, ok := m.(*ast.Ident)
+			if !ok || id.Name == "_" {
+				return true
+			}
+			obj := rw.info.Uses[id]
+			if obj == nil {
+				obj = rw.info.Defs[id]
+			}
+			v, ok := obj.(*types.Var)
+			if !ok || v.IsField() || seen[v] {
+				return true
+			}
+			if v.Pos() < fn.Pos() || v.Pos() >= fn.End() {
+				return true // package level or captured from an outer function
+			}
+			if v.Pos() >= body.Lbrace && v.Pos() < body.Rbrace {
+				return true // lives for one iteration only
+			}
+			b, ok := v.Type().Underlying().(*types.Basic)
+			if !ok || b.Info()&(types.IsBoolean|types.IsNumeric|types.IsString) == 0 || b.Info()&types.IsUntyped != 0 {
+				return true
+			}
+			seen[v] = true
+			vars = append(vars, v)
+			return true
+		})
+		if len(vars) == 0 {
+			sites[n] = parent // transparent for the nesting chain
+			return true
+		}
+		sort.Slice(vars, func(i, j int) bool { return vars[i].Pos() < vars[j].Pos() })
+		args := []ast.Expr{
+			&ast.BasicLit{Kind: token.INT, Value: fmt.Sprint(site)},
+			&ast.BasicLit{Kind: token.INT, Value: fmt.Sprint(parent)},
+		}
+		for _, v := range vars {
+			args = append(args, ast.NewIdent(v.Name()))
+		}
+		if reportNotes {
+			names := []string{}
+			for _, v := range vars {
+				names = append(names, v.Name()+" "+v.Type().String())
+			}
+			fmt.Fprintf(os.Stderr, "vxform: note %s:%d site=%d parent=%d: %s\n", pos.Filename, pos.Line, site, parent, strings.Join(names, ", "))
+		}
+		body.List = append([]ast.Stmt{&ast.ExprStmt{X: rw.call("NoteLocals", args...)}}, body.List...)
+		return true
+	})
+}
+
+// hasSchedulingPoint: the block contains a call of a function (not a builtin,
+// not a conversion) or a channel operation.
+func (rw *rewriter) hasSchedulingPoint(b *ast.BlockStmt) bool {
+	found := false
+	ast.Inspect(b, func(m ast.Node) bool {
+		if found {
+			return false
+		}
+		switch x := m.(type) {
+		case *ast.SendStmt, *ast.SelectStmt, *ast.GoStmt:
+			found = true
+		case *ast.UnaryExpr:
+			if x.Op == token.ARROW {
+				found = true
+			}
+		case *ast.RangeStmt:
+			if ok, _ := rw.isChan(x.X); ok {
+				found = true
+			}
+		case *ast.CallExpr:
+			if tv, ok := rw.info.Types[x.Fun]; ok && tv.IsType() {
+				return true // conversion
+			}
+			if id, ok := unparen(x.Fun).(*ast.Ident); ok {
+				if _, isB := rw.info.Uses[id].(*types.Builtin); isB {
+					return true
+				}
+			}
+			found = true
+		}
+		return true
+	})
+	return found
+}
+
+func fnv64(s string) uint64 {
+	h := uint64(14695981039346656037)
+	for i := 0; i < len(s); i++ {
+		h ^= uint64(s[i])
+		h *= 1099511628211
+	}
+	return h
+}
+
+var (
+	noNotes     = os.Getenv("VXFORM_NONOTES") != ""
+	reportNotes = os.Getenv("VXFORM_REPORT") != ""
+)
 
 func unparen(e ast.Expr) ast.Expr {
 	for {
